@@ -419,6 +419,59 @@ func (e *lowerEng) sliceLower(v ssa.Value, depth int, seen map[ssa.Value]bool) b
 			}
 			return e.variadicLower(x.Call.Args[1], depth+1, seen)
 		}
+		// a function of the module: every slice it returns
+		if f := staticCallee(&x.Call); f != nil && f.Blocks != nil && inPkg(f, e.p.SPkg) {
+			n := 0
+			for _, b := range f.Blocks {
+				if ret, ok := b.Instrs[len(b.Instrs)-1].(*ssa.Return); ok && len(ret.Results) > 0 {
+					n++
+					if !e.sliceLower(ret.Results[0], depth+1, seen) {
+						return false
+					}
+				}
+			}
+			return n > 0
+		}
+		return false
+	case *ssa.Parameter:
+		// every call site inside the module passes a lower-case list
+		fn := x.Parent()
+		idx := -1
+		for i, q := range fn.Params {
+			if q == x {
+				idx = i
+			}
+		}
+		n := 0
+		for _, ed := range e.p.callersOf(fn) {
+			if ed.Site == nil || ed.Site.Common().IsInvoke() {
+				continue
+			}
+			args := ed.Site.Common().Args
+			if idx < 0 || idx >= len(args) {
+				return false
+			}
+			n++
+			if !e.sliceLower(args[idx], depth+1, seen) {
+				return false
+			}
+		}
+		return n > 0
+	case *ssa.Extract:
+		if call, ok := x.Tuple.(*ssa.Call); ok {
+			if f := staticCallee(&call.Call); f != nil && f.Blocks != nil && inPkg(f, e.p.SPkg) {
+				n := 0
+				for _, b := range f.Blocks {
+					if ret, ok := b.Instrs[len(b.Instrs)-1].(*ssa.Return); ok && x.Index < len(ret.Results) {
+						n++
+						if !e.sliceLower(ret.Results[x.Index], depth+1, seen) {
+							return false
+						}
+					}
+				}
+				return n > 0
+			}
+		}
 		return false
 	case *ssa.UnOp:
 		if x.Op == token.MUL {
